@@ -758,20 +758,26 @@ pub fn generate_code(context: &Context) -> Result<u32, &'static str>
             next_reference_id.load(std::sync::atomic::Ordering::Relaxed)
         );
 
-        let reference_updates = match process_references::<
+        let reference_updates = process_references::<
             InsertReferencesProcessor,
             Arc<AtomicU32>,
             InsertReferencesResult,
             InsertReferencesResult,
-        >(context, Some(next_reference_id), &finder)
+        >(context, Some(Arc::clone(&next_reference_id)), &finder);
+
+        /* Record every ID handed out, however the pass ended (stop request, failed file): an ID
+         * that may have reached a source file must never be assigned again.
+         */
+        context.cache_next_reference_id(
+            next_reference_id.load(std::sync::atomic::Ordering::Relaxed),
+            context.config.config_dir.as_str(),
+        );
+
+        let reference_updates = match reference_updates
         {
             Some(r) => r,
             None => return Err("Failed to insert references"),
         };
-
-        let cachable_reference_id =
-            calculated_next_reference_id + (reference_updates.num_inserted_references as u32);
-        context.cache_next_reference_id(cachable_reference_id, context.config.config_dir.as_str());
 
         info!(
             "[ref: 21] Num. inserted reference(s): {}",
